@@ -53,6 +53,41 @@ def _dz_index(fi, flow, nid, d) -> Optional[Tuple[str, str]]:
     return None
 
 
+def _scaled_index(fi, flow, nid, d) -> Optional[Tuple[str, str]]:
+    """(index text, how) if the local d holds `1000 * <obj>.dz[k]` (a compartment's thickness in mm) at cfg node nid"""
+    if not isinstance(d, ast.Name):
+        return None
+    idx = set()
+    for dn in flow.defs_reaching(d.id, nid):
+        if dn < 0:
+            return None
+        a = flow.cfg.nodes[dn].ast
+        if not (isinstance(a, ast.Assign) and len(a.targets) == 1 and isinstance(a.targets[0], ast.Name)):
+            return None
+        fs = _factors(a.value)
+        rest = [f for f in fs if not _is_1000(f)]
+        if len(fs) != 2 or len(rest) != 1:
+            return None
+        r = _dz_index(fi, flow, dn, rest[0])
+        if r is None or r[1] == "stale-alias":
+            return None if r is None else r
+        names = {x.id for x in ast.walk(rest[0]) if isinstance(x, ast.Name)}
+        if isinstance(rest[0], ast.Name):
+            # alias of an alias: the index names are those of the thickness expression
+            names = {x for x in ast.walk(ast.parse(r[0], mode="eval")) if isinstance(x, ast.Name)}
+            names = {x.id for x in names}
+        for nm in names:
+            if nm == getattr(rest[0], "id", None):
+                continue
+            if set(flow.defs_reaching(nm, dn)) != set(flow.defs_reaching(nm, nid)) and any(
+                    isinstance(y, ast.Name) and y.id == nm for y in ast.walk(ast.parse(r[0], mode="eval"))):
+                return ("?" + r[0], "stale-alias")
+        idx.add(r[0])
+    if len(idx) == 1:
+        return idx.pop(), "mm-thickness local " + d.id
+    return None
+
+
 def scan(chk, prog, rule: str, keys) -> int:
     sites = 0
     for key in sorted(keys):
@@ -68,6 +103,34 @@ def scan(chk, prog, rule: str, keys) -> int:
             nid = flow.stmt_node.get(id(st))
             if nid is None:
                 continue
+            # a local that holds the thickness in mm (`dz_mm = 1000 * prof.dz[k]`) used as a factor or divisor
+            done = set()
+            for m in ast.walk(st.value):
+                if not (isinstance(m, ast.BinOp) and isinstance(m.op, (ast.Mult, ast.Div))):
+                    continue
+                for f in (m.left, m.right):
+                    if not isinstance(f, ast.Name) or f.id in done:
+                        continue
+                    r = _scaled_index(fi, flow, nid, f)
+                    if r is None:
+                        continue
+                    done.add(f.id)
+                    k, how = r
+                    elems = [x for x in ast.walk(st) if isinstance(x, ast.Subscript) and not (isinstance(x.value, ast.Attribute) and x.value.attr == THICK_ATTR)
+                             and isinstance(x.slice, (ast.Name, ast.BinOp, ast.Constant))]
+                    sites += 1
+                    chk.fn(key)
+                    construct = f"{norm(st)[:110]}"
+                    if how == "stale-alias":
+                        chk.violation(rule, where, construct, f"thickness local {f.id} was computed for index {k[1:]} which has changed since", loc=fi.loc(st))
+                        continue
+                    bad = [x for x in elems if norm(x.slice) != k]
+                    if bad:
+                        chk.violation(rule, where, construct,
+                                      f"depth <-> water-content conversion uses the thickness of compartment [{k}] ({how}) but the statement handles "
+                                      f"{', '.join(sorted({norm(b) for b in bad}))}", loc=fi.loc(st))
+                    else:
+                        chk.ok(rule, where, construct, f"thickness of [{k}] ({how}); elements {sorted({norm(e) for e in elems}) or 'none (scalar statement)'}")
             for m in ast.walk(st):
                 if not (isinstance(m, ast.BinOp) and isinstance(m.op, ast.Mult)) or id(m) in seen:
                     continue
